@@ -210,7 +210,25 @@ def field_updates_nonatomic(F, b):
     stores = []
     orig_walk = W.walk
 
+    pending = {}
+
     def walk_hook(n, K):
+        if n.get("k") == "AssignOp" and n.get("op") in ("&=", "|=", "^="):
+            # `*w &= K; *w |= V` on the word in place: the stored word is ((old & K) | V)
+            lt_node = n["l"]
+            while lt_node.get("k") == "Unary" and lt_node.get("op") == "*":
+                lt_node = lt_node["e"]
+            if lt_node.get("k") == "MethodCall" and lt_node["name"] in ("get_unchecked_mut",):
+                idx = W.T.term(lt_node["args"][0])
+                pk = (idx, tuple(K.show()))
+                prev = pending.get(pk)
+                old = prev[0] if prev else W.T.term(lt_node)
+                new = mk_op(n["op"][:-1], old, W.T.term(n["r"]))
+                if prev:
+                    stores.remove(prev[1])
+                ent = (n, idx, new, K.show())
+                stores.append(ent)
+                pending[pk] = (new, ent)
         if n.get("k") == "Assign":
             l = n["l"]
             lt_node = l
@@ -332,6 +350,13 @@ def r13_2(ctx, rr):
         rr.instances += 1
         names = sorted(o for _, o, _, _ in rmws)
         ok = names == ["fetch_and", "fetch_or"] and not others
+        if not ok and nm == "set_unchecked" and not rmws and len(others) == 1 and others[0][1] == "self.swap_unchecked":
+            # set_unchecked written as `swap_unchecked(index, value, order)` with the result dropped: the one RMW is
+            # the sibling's (checked below), reached with the same parameters in the same positions
+            call = others[0][0]
+            own = [p.get("id") for p in b.params[1:]]
+            passed = [a.get("id") if a.get("k") == "Path" and a.get("res") == "local" else None for a in call.get("args", [])]
+            ok = own == passed
         rr.check(ok, "AtomicBitVec::%s:single-rmw" % nm, "%s must modify the bit with exactly one fetch_or (set) / fetch_and (clear) per path and no other access to the word; found RMWs %s and other accesses %s" % (b.key, names, [o for _, o in others]), b.span)
         bits_def = None
         for n, o, m, recv in rmws:
